@@ -1,5 +1,5 @@
 //! std::thread look-alike: real OS threads registered with the simulator.
-pub use std::thread::{available_parallelism, current, panicking, Result, Thread, ThreadId};
+pub use std::thread::{available_parallelism, current, panicking, AccessError, LocalKey, Result, Thread, ThreadId};
 
 use crate::rt::{self, Ctx, Obj, Op, Parker};
 use std::io;
